@@ -58,6 +58,10 @@ CHECKS = {
             "reference-model runtime monitor for locations: the reference interpreter supplies the stack of executing statements, the real error's 'at file:line:col' trace is checked frame by frame against their source spans; errors.Is/As probes for sentinels and host errors",
             "Failing programs (planted failure of 30 kinds at call depth 0..12 behind functions with removable dead code, in main and in modules, multi-line and shared-line statements; generated programs with ill-typed operations) are run by the real engine and by the reference interpreter; message, frame count and containment of every reported position in the span of the statement executing in that frame are checked. Sentinels (allocation limit, stack overflow, index out of bounds, string/bytes limit) and a host error type are provoked at random depth and must be recognisable through errors.Is / errors.As. Held on the programs listed in evidence.",
             "Trusted: the reference interpreter's notion of 'statement executing' (innermost simple statement, or the if/for/for-in statement for its header expressions); parser node spans."),
+    "C15": ("exploration",
+            "history-versus-sequential-model runtime monitor over the embedding API (model's Run = reference interpreter, unique written values), plus round-trip law and independent coercion table for conversions and typed accessors",
+            "(a) Random Go values of every supported and several unsupported types go through FromInterface, Script.Add, Compiled.Set, the script itself (type_name, value), ToInterface and Variable.Value; the result must be the input up to the documented normalisation, unsupported values must be rejected without touching the variable, and all typed accessors are compared with an independent coercion table. (b) Random sequences of up to 40 Add/Remove/Compile/Set/Run/Get/GetAll/IsDefined/Clone calls over 13 small scripts and several live Compiled objects are checked call by call against a sequential model; tengo.Eval is compared with the model. Held on the values and histories listed in evidence.",
+            "Trusted: the reference interpreter as the model of Run; the documented conversion and coercion tables."),
     "C16": ("exploration",
             "runtime monitor on the hooked VM state (frame index sampled by the probe at every dispatched instruction) combined with an executable model of the equivalent loop computed by the harness",
             "Generated self-recursive functions (1-6 parameters, variadic, locals, closures capturing parameters in chosen iterations) with the self call in tail, non-tail and free syntactic positions are run at depths up to 10^6; the result must equal the equivalent loop computed in Go, closures must report the parameter values of their own iteration, the maximum frame index must stay constant for tail positions and grow with the depth for non-tail positions; entering tail recursion from the last available frame and the discarded-result call form are probed. Held on the functions listed in evidence.",
